@@ -1164,6 +1164,7 @@ fn base(reqs: Vec<ReqCfg>, limit: Option<usize>, rb: usize, fl: Flavour, cap: us
         eof_at_end: true,
         route: Route::Requests,
         burst: false,
+        reuse_after_end: false,
         dup_deadline_ms: 10_000,
     }
 }
@@ -1439,6 +1440,11 @@ pub fn configs(prop: SProp, tier: Tier) -> Vec<SCfg> {
                     }
                 }
             }
+        }
+    }
+    if prop == SProp::C08 {
+        for c in out.iter_mut() {
+            c.reuse_after_end = true;
         }
     }
     if prop == SProp::C06 {
